@@ -3,6 +3,13 @@
 
 package netceptor
 
+import (
+	"os"
+	"strconv"
+	"strings"
+	"time"
+)
+
 // VerifSetRoute installs an arbitrary next hop for a destination in the routing table, bypassing the routing
 // protocol. It exists only in builds with the "verif" tag and is used by the external verification harness to
 // create inconsistent or looping routing tables (hop-limit checks). The next routing table recomputation
@@ -12,4 +19,19 @@ func (s *Netceptor) VerifSetRoute(dest string, nextHop string) {
 	s.routingTableLock.Lock()
 	defer s.routingTableLock.Unlock()
 	s.routingTable[dest] = nextHop
+}
+
+// verifPause sleeps at a named point when $VERIF_NET_DELAY is "point:microseconds". Build tag "verif" only; used by the
+// external verification harness to widen windows between two steps of one operation.
+func verifPause(point string) {
+	spec := os.Getenv("VERIF_NET_DELAY")
+	if spec == "" {
+		return
+	}
+	parts := strings.SplitN(spec, ":", 2)
+	if len(parts) != 2 || parts[0] != point {
+		return
+	}
+	us, _ := strconv.Atoi(parts[1])
+	time.Sleep(time.Duration(us) * time.Microsecond)
 }
